@@ -62,11 +62,16 @@ class _RequestHandler:
         self.logger.info("<= [%s]: %s", client_address, data)
         try:
             response = {}
-            request = json.loads(data)
+            try:
+                request = json.loads(data)
+            except ValueError as e:
+                # Not only malformed documents (JSONDecodeError is a ValueError) but
+                # also e.g. integer literals beyond the interpreter's conversion limit
+                raise json.decoder.JSONDecodeError(format(e), data, 0)
             self.logger.debug("Delivering request")
             response = self.protocol.handle_request(request)
             self.logger.debug("Got response: %s", response)
-        except json.decoder.JSONDecodeError as e:
+        except (json.decoder.JSONDecodeError, RecursionError) as e:
             self.logger.debug("JSON error: %s", e)
             response = self.protocol.format_error()
         except NotImplementedError as e:
